@@ -164,7 +164,7 @@ impl Prop for C06 {
          BOM-like (U+FEFF, U+FFFE, U+BBEF U+00BF), zero-byte-containing code units; Shift-JIS-lossless text for the legacy format; the empty archive) is built with set_title/set_message, serialized and re-parsed with the same format and \
          endianness: title (Unicode), keys in order and every message must be equal, the parsed archive must be clean; the file is also read by the independent reference reader: every message starts on a 4-byte boundary, carries its \
          key as the label of that address, decodes (own UTF-16LE / Shift-JIS decoder) to the message, labels in address order = key order. The re-parsed archive is then edited \
-         (set_title, delete_message, set_message, new keys) and must round-trip again. 1 archive in 100 has 300..=1 500 entries (thorough 6 000), 1 message in 250 is a short message repeated 40..400 times (thousands of code units, text sections beyond 64 KiB), and in 1 archive of 4 some keys carry byte-identical messages. Non-trivial: >= 2 entries, or a message with a non-BMP / BOM-like / zero-byte code unit, or an empty message, or the empty archive. Distinct = distinct case value."
+         (set_title, delete_message, set_message, new keys) and must round-trip again. 1 archive in 100 has 300..=1 500 entries (thorough 3 000), 1 message in 250 is a short message repeated 40..400 times (thousands of code units, text sections beyond 64 KiB), and in 1 archive of 4 some keys carry byte-identical messages. Non-trivial: >= 2 entries, or a message with a non-BMP / BOM-like / zero-byte code unit, or an empty message, or the empty archive. Distinct = distinct case value."
             .into()
     }
     fn assumptions() -> Vec<String> {
@@ -181,7 +181,7 @@ impl Prop for C06 {
     }
     fn strategy(tier: Tier) -> BoxedStrategy<Case> {
         let max_entries = tier.pick(12usize, 120);
-        let many = tier.pick(1500usize, 6000);
+        let many = tier.pick(1500usize, 3000);
         (any::<bool>(), any::<bool>()).prop_flat_map(move |(unicode, big_endian)| {
             // mostly short messages; 1 in 250 is a short message repeated into thousands of code units
             let long = move |s: BoxedStrategy<String>| (s, 40usize..400).prop_map(|(m, k)| m.repeat(k)).boxed();
